@@ -2222,4 +2222,20 @@ example : M3.det exTri ≠ 0 ∧ ((((⟨-1, 1⟩ : C04.Size).mult : Int) : ℚ))
 
 end audit
 
+section audit2
+/-- `fault_orbit_restores`, every hypothesis discharged: cubic cell periodic in x and y only, cut c, fault plane z = 1/2,
+    shift t = (1/2, 0, 0) (half an in-plane lattice vector: M = 2), a crystal made of two orbits (one below, one above the
+    plane), listed in a different order than the orbits. -/
+example : (fault (⟨exCubic, ⟨0, 0, 0⟩⟩ : Box ℚ) ⟨true, true, false⟩ Rat.floor .c (1 / 2) ⟨1 / 2, 0, 0⟩
+      [⟨3 / 4, 0, 3 / 4⟩, ⟨0, 1 / 2, 1 / 4⟩, ⟨1 / 4, 0, 3 / 4⟩, ⟨1 / 2, 1 / 2, 1 / 4⟩]).Perm
+    [⟨3 / 4, 0, 3 / 4⟩, ⟨0, 1 / 2, 1 / 4⟩, ⟨1 / 4, 0, 3 / 4⟩, ⟨1 / 2, 1 / 2, 1 / 4⟩] :=
+  fault_orbit_restores (⟨exCubic, ⟨0, 0, 0⟩⟩ : Box ℚ) (by decide +kernel) ⟨true, true, false⟩ Rat.floor isFloor_ratFloor .c (1 / 2)
+    ⟨1 / 2, 0, 0⟩ 2 ⟨1, 0, 0⟩ (by decide +kernel) (by decide) (by decide) (by decide) (by decide)
+    (by decide +kernel) (by decide +kernel)
+    [⟨1 / 4, 0, 3 / 4⟩, ⟨0, 1 / 2, 1 / 4⟩] _ (by decide +kernel)
+-- the shift really moves the upper atoms (the instance is not the trivial shift)
+example : fault (⟨exCubic, ⟨0, 0, 0⟩⟩ : Box ℚ) ⟨true, true, false⟩ Rat.floor .c (1 / 2) ⟨1 / 2, 0, 0⟩
+      [⟨3 / 4, 0, 3 / 4⟩, ⟨0, 1 / 2, 1 / 4⟩] = [⟨1 / 4, 0, 3 / 4⟩, ⟨0, 1 / 2, 1 / 4⟩] := by decide +kernel
+end audit2
+
 end Atomman.C14
